@@ -177,6 +177,7 @@ class State:
         self.labels = {}
         self.infeasible = False
         self.wlog = []       # heap / ghost locations written on this path (vocabulary of `modifies`)
+        self.index_terms = []   # ground list indices read on this path (instantiation hints)
 
     def fork(self):
         s = State()
@@ -189,6 +190,7 @@ class State:
         s.loop_entry = self.loop_entry
         s.labels = dict(self.labels)
         s.wlog = list(self.wlog)
+        s.index_terms = list(self.index_terms)
         return s
 
     def assume(self, b):
@@ -275,6 +277,7 @@ class Engine:
         self.paths = 0
         self.calls_seen = []
         self.assumption_log = set()
+        self.abstracted = []
 
     # ------------------------------------------------------------------ heap primitives
     def arr(self, st, name):
@@ -288,27 +291,32 @@ class Engine:
                 st.loop_entry.heap.arrs[name] = a
         return a
 
-    def typing_facts(self, st, v):
-        """facts true of every well-formed heap value (assumed on read)"""
+    def typing_facts(self, st, v, guard=None):
+        """facts true of every well-formed heap value (assumed on read).  `guard`: the condition under which the read location
+        is a real location (list index in range, object allocated); cells outside are not constrained, so the facts stay
+        sound when they are generalised over a bound variable."""
         s = v.s
+        facts = []
         if s[0] in ("ref", "list"):
-            st.assume(v.t >= (0 if s[2] else 1))
-            st.assume(v.t <= st.heap.alloc)
+            facts.append(v.t >= (0 if s[2] else 1))
+            facts.append(v.t <= st.heap.alloc)
             if s[0] == "ref":
                 cl = []
                 for c in classes_of(s):
                     cl += R.subclasses(c)
                 tag = z3.Select(self.arr(st, "obj.tag"), v.t)
                 tagok = z3.Or([tag == R.CLASS_IDS[c] for c in cl])
-                st.assume(z3.Or(v.t == 0, tagok) if s[2] else tagok)
+                facts.append(z3.Or(v.t == 0, tagok) if s[2] else tagok)
             else:
                 ln = z3.Select(self.arr(st, "list.len"), v.t)
-                st.assume(ln >= 0)
+                facts.append(ln >= 0)
         elif s[0] == "opq":
-            st.assume(v.t >= (0 if s[2] else 1))
+            facts.append(v.t >= (0 if s[2] else 1))
         elif s[0] == "senum":
             if not z3.is_int_value(v.t):
-                st.assume(z3.And(v.t >= 0, v.t < len(s[2])))
+                facts.append(z3.And(v.t >= 0, v.t < len(s[2])))
+        for f in facts:
+            st.assume(f if guard is None else z3.Implies(guard, f))
         return v
 
     def field_arrays(self, cname, fname):
@@ -325,10 +333,10 @@ class Engine:
         a = self.arr(st, name)
         if fs[0] in ("opt", "ids"):
             n = self.arr(st, name + "#n")
-            v = V(fs, (z3.Select(n, obj_t), z3.Select(a, obj_t)))
+            v = V(fs, (z3.simplify(z3.Select(n, obj_t)), z3.simplify(z3.Select(a, obj_t))))
             return v
-        v = V(fs, z3.Select(a, obj_t))
-        return self.typing_facts(st, v)
+        v = V(fs, z3.simplify(z3.Select(a, obj_t)))
+        return self.typing_facts(st, v, guard=z3.And(obj_t >= 1, obj_t <= st.heap.alloc))
 
     def store_field(self, st, obj_t, cname, fname, val, node=None):
         owner = R.field_owner(cname, fname)
@@ -442,16 +450,25 @@ class Engine:
         raise Unsupported(f"list of {show(elem_sort)}")
 
     def list_len(self, st, lst):
-        ln = z3.Select(self.arr(st, "list.len"), lst.t)
-        st.assume(ln >= 0)
+        ln = z3.simplify(z3.Select(self.arr(st, "list.len"), lst.t))
+        st.assume(z3.Implies(z3.And(lst.t >= 1, lst.t <= st.heap.alloc), ln >= 0))
         return ln
 
     def list_elems(self, st, lst):
-        return z3.Select(self.arr(st, self.elem_arr_name(lst.s[1])), lst.t)
+        return z3.simplify(z3.Select(self.arr(st, self.elem_arr_name(lst.s[1])), lst.t))
+
+    @staticmethod
+    def note_index(st, idx_t):
+        """remember ground index terms: universally quantified hypotheses are instantiated at them for every obligation"""
+        if z3.is_int_value(idx_t):
+            return
+        if not any(idx_t.eq(x) for x in st.index_terms) and len(st.index_terms) < 8:
+            st.index_terms = st.index_terms + [idx_t]
 
     def list_get(self, st, lst, idx_t):
         e = z3.Select(self.list_elems(st, lst), idx_t)
-        return self.typing_facts(st, V(lst.s[1], e))
+        ln = z3.Select(self.arr(st, "list.len"), lst.t)
+        return self.typing_facts(st, V(lst.s[1], e), guard=z3.And(idx_t >= 0, idx_t < ln, lst.t >= 1, lst.t <= st.heap.alloc))
 
     def new_object(self, st, cname, owner=GEN):
         oid = st.heap.alloc + 1
@@ -487,7 +504,18 @@ class Engine:
         name = f"{self.key}/{kind}[{detail}]"
         if isinstance(goal, bool):
             goal = z3.BoolVal(goal)
-        ob = Obligation(name, st.pc, goal, kind, self.key, line, props if props is not None else self.contract.props, text)
+        hyps = list(st.pc)
+        # instantiation hints: single-variable universally quantified hypotheses at the ground list indices of this path
+        # (instances of true hypotheses: sound; saves the solver the search for the obvious instances)
+        if st.index_terms and self.contract is not None and getattr(self.contract, 'index_hints', False):
+            n_inst = 0
+            for h in st.pc:
+                for q in (h.children() if z3.is_and(h) else [h]):
+                    if z3.is_quantifier(q) and q.is_forall() and q.num_vars() == 1 and q.var_sort(0) == z3.IntSort() and n_inst < 60:
+                        for t in st.index_terms:
+                            hyps.append(z3.substitute_vars(q.body(), t))
+                            n_inst += 1
+        ob = Obligation(name, hyps, goal, kind, self.key, line, props if props is not None else self.contract.props, text)
         self.obligations.append(ob)
         return ob
 
@@ -583,7 +611,7 @@ class Engine:
             return la.t == lb.t
         if la.s[0] in ("ref", "opq", "enum") and lb.s[0] == la.s[0]:
             return la.t == lb.t
-        if la.s[0] == "enum" and lb.s == INT:
+        if (la.s[0] == "enum" and lb.s == INT) or (lb.s[0] == "enum" and la.s == INT):
             return la.t == lb.t
         if la.s[0] == "list" and lb.s[0] == "list":
             raise Unsupported("list == list")
@@ -1043,7 +1071,7 @@ class Engine:
         key = self.method_key(cname, attr)
         if key and R.CONTRACTS[key].is_property:
             return self.call_contract(st, key, [V(Ref(cname), o.t)], {}, node, k, ctx)
-        if key:
+        if key or f"{cname}.{attr}" in R.EXTERNALS:
             return k(st, V(("bound",), (V(Ref(cname), o.t), attr)))
         if R.CLASSES[cname].get("closed"):
             return self.throw(st, "AttributeError", node, ctx)
@@ -1098,6 +1126,7 @@ class Engine:
             idx = self.norm_index(st, li.t, ln, node, ctx)
             if st.infeasible:
                 return
+            self.note_index(st, idx)
             return k(st, self.list_get(st, lo, idx))
         if lo.s == STR:
             ln = z3.Length(lo.t)
@@ -1134,9 +1163,8 @@ class Engine:
                 return k(s1, V(STR, z3.SubString(ob.t, a, n)))
             # list slice: fresh list with shifted elements
             src = self.list_elems(s1, ob)
-            new = fresh("slice", src.sort())
             j = z3.Int(f"j!{next(_fresh)}")
-            s1.assume(z3.ForAll([j], z3.Implies(z3.And(j >= 0, j < n), z3.Select(new, j) == z3.Select(src, j + a))))
+            new = z3.Lambda([j], z3.Select(src, j + a))
             return k(s1, self.new_list(s1, ob.s[1], z3.simplify(n), new))
 
         def ev_opt(n, s1, kk):
@@ -1167,6 +1195,8 @@ class Engine:
     def call_method(self, st, recv, meth, args, kwargs, node, k, ctx):
         def body(s1, cname):
             key = self.method_key(cname, meth)
+            if key is None and f"{cname}.{meth}" in R.EXTERNALS:
+                return self.ext_call(f"{cname}.{meth}", s1, node, [V(Ref(cname), recv.t)] + args, kwargs, k, ctx)
             if key is None:
                 if meth == "__str__":
                     key = self.method_key(cname, "generate_string")
@@ -1320,10 +1350,10 @@ class Engine:
             if nm in modset:
                 continue
             old = st.heap.arrs[nm]
-            new = fresh("al!" + nm, old.sort())
+            junk = fresh("al!" + nm, old.sort())
             o = z3.Int(f"o!{next(_fresh)}")
-            st.assume(z3.ForAll([o], z3.Implies(o <= alloc0, z3.Select(new, o) == z3.Select(old, o))))
-            st.heap.arrs[nm] = new
+            # pre-existing objects keep their value, objects the callee allocated have arbitrary values
+            st.heap.arrs[nm] = z3.Lambda([o], z3.If(o <= alloc0, z3.Select(old, o), z3.Select(junk, o)))
         na = fresh("alloc", z3.IntSort())
         st.assume(na >= alloc0)
         st.heap.alloc = na
@@ -1335,7 +1365,51 @@ class Engine:
     def exec_block(self, stmts, st, k, ctx):
         if not stmts:
             return k(st)
+        if self.contract is not None and self.contract.abstract:
+            first = _first_line(stmts[0])
+            for item in self.contract.abstract:
+                if first == item["from"]:
+                    j = next((n for n, s_ in enumerate(stmts) if _first_line(s_) == item["until"]), None)
+                    if j is None:
+                        raise Unsupported(f"abstracted block: end anchor {item['until']!r} not found (contract out of date)")
+                    self.check_abstractable(stmts[:j], item)
+                    for nm in item["havoc"]:
+                        st.env[nm] = V(("abstract",), nm)
+                    self.abstracted.append({"from": item["from"], "until": item["until"], "statements": j, "note": item.get("note", "")})
+                    return self.exec_block(stmts[j:], st, k, ctx)
         return self.exec_stmt(stmts[0], st, lambda s1: self.exec_block(stmts[1:], s1, k, ctx), ctx)
+
+    def check_abstractable(self, stmts, item):
+        """the block may only assign the listed locals and call the listed functions: it cannot touch any state a contract mentions"""
+        allowed_calls = set(item.get("calls", []))
+        havoc = set(item["havoc"])
+        for s_ in stmts:
+            for n in ast.walk(s_):
+                if isinstance(n, (ast.Return, ast.Raise, ast.Delete, ast.Global, ast.Nonlocal, ast.Yield, ast.FunctionDef, ast.Try, ast.With)):
+                    raise Unsupported(f"abstracted block contains {type(n).__name__}")
+                if isinstance(n, (ast.Assign, ast.AugAssign, ast.For)):
+                    tgts = n.targets if isinstance(n, ast.Assign) else [n.target]
+                    for t in tgts:
+                        for tn in ast.walk(t):
+                            if isinstance(tn, ast.Attribute):
+                                raise Unsupported("abstracted block stores to an attribute")
+                        base = t
+                        while isinstance(base, ast.Subscript):
+                            base = base.value
+                        if isinstance(base, ast.Tuple):
+                            names = [e.id for e in base.elts if isinstance(e, ast.Name)]
+                        elif isinstance(base, ast.Name):
+                            names = [base.id]
+                        else:
+                            raise Unsupported("abstracted block assignment target")
+                        for nm in names:
+                            if nm not in havoc:
+                                raise Unsupported(f"abstracted block assigns {nm}, which the contract does not list")
+                if isinstance(n, ast.Call):
+                    f = n.func
+                    name = f.attr if isinstance(f, ast.Attribute) else (f.id if isinstance(f, ast.Name) else None)
+                    if name not in allowed_calls:
+                        raise Unsupported(f"abstracted block calls {name}, which the contract does not allow")
 
     def exec_stmt(self, node, st, k, ctx):
         m = getattr(self, "st_" + type(node).__name__, None)
@@ -1609,6 +1683,13 @@ class Engine:
 
     def st_ImportFrom(self, node, st, k, ctx):
         return k(st)
+
+
+def _first_line(stmt):
+    try:
+        return ast.unparse(stmt).split("\n")[0].strip()
+    except Exception:
+        return ""
 
 
 def _as_load(t):
